@@ -18,8 +18,14 @@ ASSUMPTIONS = [
     "re-entry it stays idle until it has received the advertisement and continues from the advertised number + 1",
     "while the link is down source.ready either keeps its pattern or is low for a prefix of the interval (training "
     "sets have priority in the Tx arbiter) but is high for at least 6 cycles before re-entry (idle handshake)",
-    "keepalive / retry_required / reject_power_state strobes occur only in U0 and, after a re-entry, only once the "
-    "advertisement has been transmitted (their sources need a completed bring-up)",
+    "keepalive / retry_required / reject_power_state strobes occur in U0 and, after a re-entry, only once the "
+    "advertisement has been transmitted (their sources need a completed bring-up: in U0 the partner is the legal one)",
+    "while the link is down the received stream is untrusted (in-flight words, training sets, loss of lock, a partner "
+    "that reached U0 before us): LinkLayer derives retry_required / retry_received / reject_power_state from "
+    "PacketTransmitter's link-command detector, which taps that stream and is not gated by enable or the link state, "
+    "so these three may pulse in ANY cycle of the down interval, its last ones included (down.dstrobes; the LBAD / "
+    "LRTY / LGO_U words are put on the wire in the two cycles before); keepalive_required is not generated while "
+    "down (the keepalive timer is held at 0 by ~enable)",
     "a header that arrives from one cycle before the link goes down until re-entry may or may not count as "
     "received: both advertisements are accepted provided the DUT then accepts advertised+1 (consistency); but a "
     "header the advertisement counts as received must really have been received: it was offered on `queue` (or "
@@ -48,6 +54,11 @@ def down_strategy():
                           st.just(["inv"])),     # receiver lost lock: nothing valid arrives while the link is down
         stall=weighted([(-1, 3), (0, 1), (2, 1), (5, 1), (10, 1), (30, 1), (80, 1)]),
         post=st.lists(C37.hdr_op(), min_size=1, max_size=6),
+        # [anchor, off, kind]: anchor 1 = counted back from the last down cycle (off 0 = last), 0 = from the first;
+        # kind 1 retry_required, 2 reject_power_state, 3 retry_received
+        dstrobes=weighted([(0, 2), (1, 3)]).flatmap(lambda k: st.lists(
+            st.tuples(weighted([(1, 3), (0, 1)]), weighted([(0, 6), (1, 4), (2, 2), (3, 1), (5, 1), (9, 1), (20, 1)]),
+                      weighted([(1, 4), (3, 1), (2, 1)])).map(list), min_size=k, max_size=3 * k)),
     ))
 
 
@@ -85,7 +96,9 @@ class ReentrySub(Sub):
             "takes the link down (plain disable / warm reset / hot reset) at <start of the aimed command kind> + "
             "offset (-3..+6), at <last word of a header the partner sends> + offset (-2..+8; a quarter of the cases) or "
             "at a uniform cycle; the partner keeps sending in-flight headers and training traffic "
-            "while down; after 12..90 cycles the link comes back. Oracle: the command words transmitted after "
+            "while down; in 3 cases of 5 retry_required / retry_received / reject_power_state pulse 1..3 times at "
+            "generated cycles of the down interval (weighted to its last and last-but-one cycle); "
+            "after 12..90 cycles the link comes back. Oracle: the command words transmitted after "
             "re-entry begin with exactly LGOOD(last received number; 7 after a reset) LCRD A B C D, a header around the "
             "edge that the advertisement counts was offered on the queue or acknowledged before re-entry, the queue is "
             "empty, and the C37 rules hold for the traffic after re-entry starting at advertised+1 (no stale "
@@ -314,6 +327,15 @@ class ReentrySub(Sub):
             labels.add("edge-header-counted-blocked" if blocked_by is not None else "edge-header-counted-and-offered")
         if any(not (h["crc16_ok"] and h["crc5_ok"]) for h in optional):
             labels.add("bad-header-while-down")
+        ds = sorted({(down_at + off if anchor == 0 else up_at - 1 - off, knd) for anchor, off, knd in
+                     d.get("dstrobes", ())})
+        ds = [(t, k) for t, k in ds if down_at <= t < up_at]
+        if ds:
+            labels.add("strobe-while-down")
+        for t, k in ds:
+            if up_at - t <= 2:
+                labels.add(("", "retry_required", "reject_power_state", "retry_received")[k] +
+                           ("-in-last-down-cycle" if t == up_at - 1 else "-in-last-but-one-down-cycle"))
         if d["sready_down"] is not None and in_cmd:
             labels.add("command-stalled-into-down")
         if model2.lbad_triggers:
